@@ -52,12 +52,22 @@ pub enum GraphInline {
 impl GraphBlock {
     fn is_sparce_list(&self) -> bool {
         match self {
-            GraphBlock::BulletList(items) => items
-                .iter()
-                .any(|item| item.iter().filter(|block| block.is_paragraph()).count() > 1),
-            GraphBlock::OrderedList(items) => items
-                .iter()
-                .any(|item| item.iter().filter(|block| block.is_paragraph()).count() > 1),
+            GraphBlock::BulletList(items) => items.iter().any(|item| {
+                item.iter().filter(|block| block.is_paragraph()).count() > 1
+                    || item.iter().any(|block| block.is_rule())
+            }),
+            GraphBlock::OrderedList(items) => items.iter().any(|item| {
+                item.iter().filter(|block| block.is_paragraph()).count() > 1
+                    || item.iter().any(|block| block.is_rule())
+            }),
+            _ => false,
+        }
+    }
+
+    // a rule written directly under the item text would read back as a setext heading underline
+    fn is_rule(&self) -> bool {
+        match self {
+            GraphBlock::HorizontalRule => true,
             _ => false,
         }
     }
